@@ -80,6 +80,13 @@ Definition set_dirty (s : ostate) v := {| q_val := q_val s; q_vec := q_vec s; q_
 Definition set_envv (s : ostate) v := {| q_val := q_val s; q_vec := q_vec s; q_given := q_given s; q_dirty := q_dirty s; q_envv := v; q_elem := q_elem s |}.
 Definition set_elem (s : ostate) v := {| q_val := q_val s; q_vec := q_vec s; q_given := q_given s; q_dirty := q_dirty s; q_envv := q_envv s; q_elem := v |}.
 
+(* while (std::getline(str, element, sep)) body : one run of the body per piece *)
+Fixpoint each_gen (run : ostate -> outcome) (pieces : list str) (s : ostate) {struct pieces} : outcome :=
+  match pieces with
+  | [] => ONormal s
+  | p :: r => match run (set_elem s p) with ONormal s' => each_gen run r s' | o => o end
+  end.
+
 Section Exec.
 Variable c : octx.
 
@@ -106,11 +113,7 @@ Fixpoint exec1 (st : stmt) (s : ostate) {struct st} : outcome :=
   | SVecFromDefault => match x_def_m c with Some d => ONormal (set_vec s d) | None => OStuck end
   | SVecClear => ONormal (set_vec s [])
   | SForLines sep body =>
-      (fix each (pieces : list str) (s : ostate) {struct pieces} : outcome :=
-         match pieces with
-         | [] => ONormal s
-         | p :: r => match seq body (set_elem s p) with ONormal s' => each r s' | o => o end
-         end) (getlines sep (q_envv s) [] false) s
+      each_gen (seq body) (getlines sep (q_envv s) [] false) s
   | SGivenZero => ONormal (set_given s 0%Z)
   | SGivenDefault => ONormal (set_given s (x_def_t c))
   | SGivenEnvWord => match parse_env_word (x_tr c) (x_fa c) (q_envv s) with
